@@ -1,6 +1,7 @@
 package verifsim
 
 import (
+	"google.golang.org/protobuf/types/dynamicpb"
 	"bufio"
 	"bytes"
 	"context"
@@ -236,6 +237,8 @@ func makeService(sp *ServicePlan, sch *Schema, h http.Handler, opts []vanguard.S
 	if via == "" {
 		if sp.Schema == "sim" || sp.Schema == "sim2" || sp.Schema == "bare" {
 			via = "schema"
+		} else if sp.Schema == "chain" {
+			via = "explicit-resolver"
 		} else {
 			via = "name"
 		}
@@ -247,6 +250,12 @@ func makeService(sp *ServicePlan, sch *Schema, h http.Handler, opts []vanguard.S
 		// dynamic descriptor, but messages resolved to the generated Go types: re-encoding is then
 		// deterministic (dynamicpb marshals fields in Go map order), which keeps event logs replayable
 		return vanguard.NewServiceWithSchema(sch.Service, h, append(opts, vanguard.WithTypeResolver(protoregistry.GlobalTypes))...), nil, nil
+	case "explicit-resolver":
+		// a schema no registry of the process knows, with a resolver built from all of its files
+		return vanguard.NewServiceWithSchema(sch.Service, h, append(opts, vanguard.WithTypeResolver(dynamicpb.NewTypes(chainFiles)))...), nil, nil
+	case "default-resolver":
+		// the same schema, the resolver left to the transcoder (it has the service's file and its import graph)
+		return vanguard.NewServiceWithSchema(sch.Service, h, opts...), nil, nil
 	default:
 		sd, extraOpts, err := alternateSchema(via, sch)
 		if err != nil {
